@@ -516,15 +516,15 @@ def workload(pid, tier, rng):
         execs += ldpc_exhaustive(ld_small[:4 if q else 8], rng, apis=("recv", "setavail"), finish=(True, False), orders=1, probe="end")
         execs += ldpc_exhaustive(ld_small[:2 if q else 4], rng, apis=("recv",), cbs=("buf", "mix"), orders=2, probe="end")
         execs += rs_exhaustive(rs_small, rng, apis=("recv", "setavail"), orders=1, probe="end", cbs=(None, "buf"))
-        execs += random_ldpc(rng, 300 if q else 3000, 40 if q else 64, cbs=cbs_all)
+        execs += random_ldpc(rng, 300 if q else 1500, 40 if q else 64, cbs=cbs_all)
         execs += random_ldpc(rng, 10 if q else 100, 300, cbs=(None, "buf"), payloads=("rnd",), dup=False)
-        execs += dense_ldpc(rng, 100 if q else 1500, cbs=cbs_all, finish_choices=(True, False), probe="end")
-        execs += big_ldpc(rng, [400, 700] if q else [400, 700, 1100, 2000, 5000])
-        execs += random_rs(rng, 300 if q else 3000, 40 if q else 255, cbs=cbs_all)
+        execs += dense_ldpc(rng, 100 if q else 800, cbs=cbs_all, finish_choices=(True, False), probe="end")
+        execs += big_ldpc(rng, [400, 700] if q else [400, 700, 1100, 2000])
+        execs += random_rs(rng, 300 if q else 1500, 40 if q else 255, cbs=cbs_all)
         execs += random_rs(rng, 20 if q else 300, 255, cbs=(None, "buf"), payloads=("rnd",))
-        execs += big_symbols(rng, 36 if q else 600, cbs=cbs_all)
+        execs += big_symbols(rng, 36 if q else 300, cbs=cbs_all)
         execs += rs_pow2(rng, cbs=cbs_all)
-        execs += threshold_ldpc(rng, 150 if q else 3000, mid=True, cbs=cbs_all)
+        execs += threshold_ldpc(rng, 150 if q else 1000, mid=True, cbs=cbs_all)
     elif pid == "C02":
         execs += rs_exhaustive(rs_small, rng, apis=("recv", "setavail"), orders=2 if q else 4, probe="each")
         execs += rs_exhaustive(rs_small, rng, apis=("mixed",), orders=1, probe="end")
@@ -544,8 +544,8 @@ def workload(pid, tier, rng):
         execs += ldpc_exhaustive(ld_small, rng, apis=("recv", "setavail"), finish=(True,), orders=1 if q else 2, probe="end")
         execs += ldpc_exhaustive(ld_mid, rng, apis=("recv",), finish=(True,), orders=1, probe="end", maxsub=800 if q else 8000)
         execs += dense_ldpc(rng, 100 if q else 1500, finish_choices=(True,), probe="end")
-        execs += threshold_ldpc(rng, 800 if q else 12000)
-        execs += threshold_ldpc(rng, 150 if q else 3000, mid=True)
+        execs += threshold_ldpc(rng, 800 if q else 8000)
+        execs += threshold_ldpc(rng, 150 if q else 1500, mid=True)
         execs += big_ldpc(rng, [350, 600] if q else [350, 600, 1100, 2500, 6000])
         for sd in (1, 7, 12345):
             ex = random_ldpc(rng, 60 if q else 600, 48 if q else 64, apis=("recv", "setavail"), finish_choices=(True,),
@@ -570,23 +570,24 @@ def workload(pid, tier, rng):
             execs.append(gen.decode_exec(p, list(range(p.k)), finish=True, probe="each", double_finish=True))
             execs.append(gen.decode_exec(p, [], finish=True, probe="each", query_first=True))
             execs.append(gen.decode_exec(p, full, api="setavail", finish=True, probe="each", double_finish=True))
-        execs += random_ldpc(rng, 100 if q else 15000, 40 if q else 64, cbs=cbs_all)
-        execs += random_rs(rng, 100 if q else 15000, 40 if q else 255, cbs=cbs_all)
+        execs += random_ldpc(rng, 100 if q else 8000, 40 if q else 64, cbs=cbs_all)
+        execs += random_rs(rng, 100 if q else 8000, 40 if q else 255, cbs=cbs_all)
         execs += big_symbols(rng, 24 if q else 400, cbs=cbs_all)
     elif pid == "C11":
         execs += ldpc_exhaustive(ld_small[:4 if q else 8], rng, apis=("recv", "setavail"), finish=(True,),
                                  cbs=CB11, orders=1, probe="end")
-        execs += rs_exhaustive(rs_small[:30 if q else None], rng, apis=("recv", "setavail", "mixed"), cbs=CB11,
+        execs += rs_exhaustive(rs_small[:30 if q else 60], rng, apis=("mixed",), cbs=("buf", "mix"), orders=1, probe="end")
+        execs += rs_exhaustive(rs_small[:30 if q else None], rng, apis=("recv", "setavail"), cbs=CB11,
                                orders=1, probe="end")
-        execs += random_ldpc(rng, 600 if q else 25000, 40 if q else 64, cbs=CB11)
-        execs += dense_ldpc(rng, 300 if q else 12000, cbs=CB11, finish_choices=(True, False), probe="end")
-        execs += random_rs(rng, 600 if q else 25000, 40 if q else 255, cbs=CB11)
+        execs += random_ldpc(rng, 600 if q else 10000, 40 if q else 64, cbs=CB11)
+        execs += dense_ldpc(rng, 300 if q else 5000, cbs=CB11, finish_choices=(True, False), probe="end")
+        execs += random_rs(rng, 600 if q else 10000, 40 if q else 255, cbs=CB11)
         execs += big_symbols(rng, 48 if q else 800, cbs=CB11)
     elif pid == "C08":
         execs += release_everywhere(ld_small[:8 if q else 12] + [rs_small[i] for i in range(0, len(rs_small), 3 if q else 1)], rng)
-        execs += random_ldpc(rng, 600 if q else 25000, 40 if q else 64, cbs=cbs_all)
-        execs += dense_ldpc(rng, 300 if q else 12000, cbs=cbs_all, finish_choices=(True, False), probe="end")
-        execs += random_rs(rng, 600 if q else 25000, 40 if q else 255, cbs=cbs_all)
+        execs += random_ldpc(rng, 600 if q else 10000, 40 if q else 64, cbs=cbs_all)
+        execs += dense_ldpc(rng, 300 if q else 5000, cbs=cbs_all, finish_choices=(True, False), probe="end")
+        execs += random_rs(rng, 600 if q else 10000, 40 if q else 255, cbs=cbs_all)
         execs += big_ldpc(rng, [400] if q else [400, 1200, 3000])
         execs += big_symbols(rng, 24 if q else 400, cbs=cbs_all)
         execs += rs_pow2(rng, cbs=cbs_all)
